@@ -207,7 +207,8 @@ func addElemChanges(patchRoot, old, new *etree.Element, elemPath string) error {
 			case OpDelete:
 				e := patchRoot.CreateElement("remove")
 				oldElem := oldChildren[d.OldPos]
-				addr := calcAddr(oldElem, oldIdx)
+				// A positional index counts the elements with the same tag that are before it in the patched document
+				addr := calcAddr(oldElem, lastNewIdx[oldElem.Tag])
 				e.CreateAttr("sel", fmt.Sprintf("%s/%s", elemPath, addr))
 				oldIdx++
 			case OpInsert:
